@@ -16,7 +16,7 @@ META = {
         "quick": "E1: a user-supplied pure-Python tagging encoder/decoder pair on symbolic valid v for the catalogue core (unbounded ints, "
                  "symbolic str len <= 2, containers len <= 2) and the identity coder of bytes-like T on symbolic bytes len <= 3; "
                  "E3: default encoder (orjson) and stdlib json on values assembled from pick-lists by choice variables (ints 0, -1, 7, "
-                 "2**53+1, -2**63, 2**63-1; strings '', 'a', quote+backslash, newline+NUL, non-ASCII; floats 0.5, -1e300, 1e-5) for every "
+                 "2**53+1, -2**63, 2**63-1; strings '', 'a', quote+backslash, newline+NUL, non-ASCII, 'null', 'None'; floats 0.5, -1e300, 1e-5) for every "
                  "catalogue shape with at most 4 leaves and str-keyed mappings; for optional / union shapes with at most 2 leaves: two values "
                  "through the same codec object, the second then through every entry point",
         "thorough": "shapes with at most 6 leaves; catalogue depth 3",
@@ -114,7 +114,7 @@ def make_bytes(timeout):
 
 
 INTS = [0, -1, 7, 2 ** 53 + 1, -(2 ** 63), 2 ** 63 - 1]
-STRS = ["", "a", '"\\', "\n\x00", "é☃"]
+STRS = ["", "a", '"\\', "\n\x00", "é☃", "null", "None"]
 FLOATS = [0.5, -1e300, 1e-5]
 
 
